@@ -65,9 +65,9 @@ def rows (lead item : Shape) (blank : Array Bool) (get : Index → Int) : Sx :=
 def head (r : Res) : List Sx :=
   [.atom (clsName r.cls), .atom (kindName r.kind), Sx.ofNats r.lead, Sx.ofNats r.numer, Sx.ofNats r.denom]
 
-def binary (op : OpSym) (a b : Opd) (blank : Array Bool) : Sx :=
+def binary (op : OpSym) (a b : Opd) (blank : Array Bool) (inpl : Bool := false) : Sx :=
   let zeroNum := b.d.isNum && b.vals.all (· == 0)
-  match dispatch op a.d b.d zeroNum with
+  match (if inpl then inplace op a.d b.d zeroNum else dispatch op a.d b.d zeroNum) with
   | none => .atom "unmodelled"
   | some (.error e) => rejSx e
   | some (.ok r) =>
@@ -145,6 +145,10 @@ def handle : List Sx → Sx
     match parseMath f, parseOpd a with
     | some f, some a => metaOnly (mathFn f a.d) ((parseBlank bl).all id)
     | _, _ => err "operand"
+  | [.atom "inplace", .atom op, a, b, bl] =>
+    match parseOp op, parseOpd a, parseOpd b with
+    | some op, some a, some b => binary op a b (parseBlank bl) true
+    | _, _, _ => err "operand"
   | [.atom op, a, b, bl] =>
     match parseOp op, parseOpd a, parseOpd b with
     | some op, some a, some b => binary op a b (parseBlank bl)
